@@ -174,7 +174,7 @@ def rtValue : Obj :=
 
 example : conf rtWorld (.td 1) rtValue = true := by
   simp [rtValue, rtWorld, conf, confTD, confL, confF, World.fields, World.members, dlookup, Field.key, Obj.pyEq,
-    Obj.num2?, SK.structTo, CK.isSet, nodupPy, Obj.memPy, hashableL, hashable, Dflt.value?]
+    Obj.num2?, SK.structTo, CK.isSet, MK.target, nodupPy, Obj.memPy, hashableL, hashable, Dflt.value?]
 example : rtValue.valid = true := by
   simp [rtValue, Obj.valid, Obj.validKV, Obj.validL, Obj.validF, keysOf, nodupPy, Obj.memPy]
 example : (Ty.td 1).supG true = true := by simp [Ty.supG]
@@ -210,7 +210,7 @@ theorem rtWorldB_WF : rtWorldB.WF := by
       rcases hf with rfl | rfl | rfl
       · simp [Dflt.value?] at hd
       · simp [Dflt.value?] at hd; subst hd
-        simp [fconf, conf, confL, SK.structTo, CK.isSet, nodupPy, hashableL]
+        simp [fconf, conf, confL, SK.structTo, CK.isSet, MK.target, nodupPy, hashableL]
       · simp [Dflt.value?] at hd; subst hd; simp [fconf, conf]
     | 1 =>
       simp [rtWorldB, World.fields] at hf
@@ -240,10 +240,10 @@ theorem rtWorldB_supB : rtWorldB.supB := by
   match c with
   | 0 =>
     simp [rtWorldB, World.fields] at hf
-    rcases hf with rfl | rfl | rfl <;> simp [Ty.supB, Ty.isPrimLeaf, Ty.hashPrim, SK.structTo, CK.isSet]
+    rcases hf with rfl | rfl | rfl <;> simp [Ty.supB, Ty.isPrimLeaf, Ty.hashPrim, SK.structTo, CK.isSet, MK.target]
   | 1 =>
     simp [rtWorldB, World.fields] at hf
-    rcases hf with rfl | rfl | rfl <;> simp [Ty.supB, Ty.isPrimLeaf, Ty.hashPrim, SK.structTo, CK.isSet]
+    rcases hf with rfl | rfl | rfl <;> simp [Ty.supB, Ty.isPrimLeaf, Ty.hashPrim, SK.structTo, CK.isSet, MK.target]
   | n + 2 => simp [rtWorldB, World.fields] at hf
 
 theorem rtWorldB_noUnion : rtWorldB.noUnion := by
@@ -266,7 +266,7 @@ theorem rtWorldB_noNT : rtWorldB.noNT := by
 
 theorem rtValueB_conf : conf rtWorldB (.cls 1) rtValueB = true := by
   simp [rtValueB, rtWorldB, conf, confL, confF, confT, confKV, World.fields, World.members, World.frozen, keysOf,
-    Obj.pyEq, Obj.num2?, SK.structTo, CK.isSet, nodupPy, Obj.memPy, hashableL, hashable, Dflt.value?]
+    Obj.pyEq, Obj.num2?, SK.structTo, CK.isSet, MK.target, nodupPy, Obj.memPy, hashableL, hashable, Dflt.value?]
 
 theorem rtValueB_valid : rtValueB.valid = true := by
   simp [rtValueB, Obj.valid, Obj.validKV, Obj.validL, Obj.validF, keysOf, nodupPy, Obj.memPy]
@@ -302,7 +302,7 @@ theorem rtWorldB'_WF : rtWorldB'.WF := by
       rcases hf with rfl | rfl | rfl
       · simp [Dflt.value?] at hd
       · simp [Dflt.value?] at hd; subst hd
-        simp [fconf, conf, confL, SK.structTo, CK.isSet, nodupPy, hashableL]
+        simp [fconf, conf, confL, SK.structTo, CK.isSet, MK.target, nodupPy, hashableL]
       · simp [Dflt.value?] at hd; subst hd; simp [fconf, conf]
     | 1 =>
       simp [rtWorldB', rtWorldB, World.fields] at hf
@@ -332,11 +332,11 @@ theorem rtWorldB'_supBOn : rtWorldB'.supBOn (fun c => c < 2) := by
   | 0 =>
     simp [rtWorldB', rtWorldB, World.fields] at hf
     rcases hf with rfl | rfl | rfl <;>
-      simp [Ty.supB, Ty.isPrimLeaf, Ty.hashPrim, SK.structTo, CK.isSet, Ty.refs]
+      simp [Ty.supB, Ty.isPrimLeaf, Ty.hashPrim, SK.structTo, CK.isSet, MK.target, Ty.refs]
   | 1 =>
     simp [rtWorldB', rtWorldB, World.fields] at hf
     rcases hf with rfl | rfl | rfl <;>
-      simp [Ty.supB, Ty.isPrimLeaf, Ty.hashPrim, SK.structTo, CK.isSet, Ty.refs, Ty.refsL]
+      simp [Ty.supB, Ty.isPrimLeaf, Ty.hashPrim, SK.structTo, CK.isSet, MK.target, Ty.refs, Ty.refsL]
   | n + 2 => have : n + 2 < 2 := hc; omega
 
 example : convStructure rtWorldB' ⟨false, false, true, false⟩ (.cls 1)
@@ -371,7 +371,7 @@ example : convStructure rtWorldB' ⟨false, false, true, false⟩ (.cls 1)
       exact noUnion_unionsOK _ _ t (rtWorldB_noUnion c f hf t ht))
     (by simp [Ty.unionsOK])
     (by simp [rtValueB, rtWorldB', rtWorldB, conf, confL, confF, confT, confKV, World.fields, World.members, World.frozen,
-          keysOf, Obj.pyEq, Obj.num2?, SK.structTo, CK.isSet, nodupPy, Obj.memPy, hashableL, hashable, Dflt.value?])
+          keysOf, Obj.pyEq, Obj.num2?, SK.structTo, CK.isSet, MK.target, nodupPy, Obj.memPy, hashableL, hashable, Dflt.value?])
     rtValueB_valid
 
 /-! Non-vacuity for class unions: class 0 (attrs, `a: int`) and class 1 (dataclass, `b: str`, `s: int = 0`) are told
@@ -427,7 +427,7 @@ theorem rtWorldU_supG : rtWorldU.supG false := by
   match c with
   | 0 => simp [rtWorldU, World.fields] at hf; subst hf; simp [Ty.supG]
   | 1 => simp [rtWorldU, World.fields] at hf; rcases hf with rfl | rfl <;> simp [Ty.supG]
-  | 2 => simp [rtWorldU, World.fields] at hf; rcases hf with rfl | rfl <;> simp [Ty.supG, SK.structTo, CK.isSet]
+  | 2 => simp [rtWorldU, World.fields] at hf; rcases hf with rfl | rfl <;> simp [Ty.supG, SK.structTo, CK.isSet, MK.target]
   | n + 3 => simp [rtWorldU, World.fields] at hf
 
 theorem rtWorldU_unionsOK : rtWorldU.unionsOK false := by
@@ -451,7 +451,7 @@ theorem rtWorldU_noNT : rtWorldU.noNT := by
   | n + 3 => simp [World.isNT, rtWorldU]
 
 theorem rtValueU_conf : conf rtWorldU (.cls 2) rtValueU = true := by
-  simp [rtValueU, rtWorldU, conf, confL, confF, World.fields, SK.structTo, CK.isSet, Dflt.value?]
+  simp [rtValueU, rtWorldU, conf, confL, confF, World.fields, SK.structTo, CK.isSet, MK.target, Dflt.value?]
 
 theorem rtValueU_valid : rtValueU.valid = true := by
   simp [rtValueU, Obj.valid, Obj.validL, Obj.validF]
@@ -475,7 +475,7 @@ example : convStructure rtWorldU ⟨true, false, false, false⟩ (.union [0, 1] 
       match c with
       | 0 => simp [rtWorldU, World.fields] at hf; subst hf; simp [Ty.supB]
       | 1 => simp [rtWorldU, World.fields] at hf; rcases hf with rfl | rfl <;> simp [Ty.supB]
-      | 2 => simp [rtWorldU, World.fields] at hf; rcases hf with rfl | rfl <;> simp [Ty.supB, SK.structTo, CK.isSet]
+      | 2 => simp [rtWorldU, World.fields] at hf; rcases hf with rfl | rfl <;> simp [Ty.supB, SK.structTo, CK.isSet, MK.target]
       | n + 3 => simp [rtWorldU, World.fields] at hf)
     (by simp [Ty.supPair, Ty.supB]) (fun _ => rtWorldU_noNT.ntOK) (fun _ => noNT_ntOK rtWorldU_noNT _)
     rtWorldU_unionsOK (by simp [Ty.unionsOK, rtWorldU_unionOK])
@@ -535,7 +535,7 @@ theorem rtWorldN_supG : rtWorldN.supG false := by
   match c with
   | 0 => simp [rtWorldN, World.fields] at hf; subst hf; simp [Ty.supG]
   | 1 => simp [rtWorldN, World.fields] at hf; rcases hf with rfl | rfl <;> simp [Ty.supG]
-  | 2 => simp [rtWorldN, World.fields] at hf; subst hf; simp [Ty.supG, SK.structTo, CK.isSet]
+  | 2 => simp [rtWorldN, World.fields] at hf; subst hf; simp [Ty.supG, SK.structTo, CK.isSet, MK.target]
   | n + 3 => simp [rtWorldN, World.fields] at hf
 
 theorem rtWorldN_noUnion : rtWorldN.noUnion := by
@@ -548,7 +548,7 @@ theorem rtWorldN_noUnion : rtWorldN.noUnion := by
 
 theorem rtValueN_conf : conf rtWorldN (.cls 2) rtValueN = true := by
   simp [rtValueN, rtWorldN, conf, confL, confF, confT, World.fields, World.members, World.isNT, World.ntTys, World.ntNames,
-    Field.tyA, vals, SK.structTo, CK.isSet, Dflt.value?]
+    Field.tyA, vals, SK.structTo, CK.isSet, MK.target, Dflt.value?]
 
 theorem rtValueN_valid : rtValueN.valid = true := by
   simp [rtValueN, Obj.valid, Obj.validL, Obj.validF]
@@ -611,7 +611,7 @@ theorem rtWorldNB_supB : rtWorldNB.supB := by
   intro c f hf
   match c with
   | 0 => simp [rtWorldNB, World.fields] at hf; rcases hf with rfl | rfl <;> simp [Ty.supB]
-  | 1 => simp [rtWorldNB, World.fields] at hf; rcases hf with rfl | rfl <;> simp [Ty.supB, SK.structTo, CK.isSet]
+  | 1 => simp [rtWorldNB, World.fields] at hf; rcases hf with rfl | rfl <;> simp [Ty.supB, SK.structTo, CK.isSet, MK.target]
   | n + 2 => simp [rtWorldNB, World.fields] at hf
 
 theorem rtWorldNB_ntOK : rtWorldNB.ntOK := by
@@ -636,7 +636,7 @@ theorem rtWorldNB_noUnion : rtWorldNB.noUnion := by
 
 theorem rtValueNB_conf : conf rtWorldNB (.cls 1) rtValueNB = true := by
   simp [rtValueNB, rtWorldNB, conf, confL, confF, confT, World.fields, World.isNT, World.ntTys, World.ntNames,
-    Field.tyA, vals, SK.structTo, CK.isSet, Dflt.value?]
+    Field.tyA, vals, SK.structTo, CK.isSet, MK.target, Dflt.value?]
 
 theorem rtValueNB_valid : rtValueNB.valid = true := by
   simp [rtValueNB, Obj.valid, Obj.validL, Obj.validF]
@@ -647,6 +647,38 @@ example : convStructure rtWorldNB ⟨true, true, true, false⟩ (.cls 1)
   C01_roundtrip_interp rtWorldNB ⟨false, true, false, false⟩ ⟨true, true, true, false⟩ (.cls 1) rtValueNB
     rfl rfl rfl rtWorldNB_WF rtWorldNB_WFE rtWorldNB_supB (by simp [Ty.supB]) rtWorldNB_ntOK (by simp [Ty.ntOK, rtWorldNB, World.isNT])
     (rtWorldNB_noUnion.unionsOK _) (by simp [Ty.unionsOK]) rtValueNB_conf rtValueNB_valid
+/-! Non-vacuity for MAPPING TARGET CLASSES: `OrderedDict[str, Counter[str]]` and a `defaultdict[int, list[int]]`; the value
+is an `OrderedDict` of `Counter`s; a `Converter` unstructures it to plain dicts and structures it back into the very
+classes (`Obj.mdict` carries the class: equality of model objects is "equal and of x's class at every depth"); for a
+`BaseConverter` as the structuring side the types are outside `Ty.supG false`. -/
+def mtWorld : World := { classes := [], enums := [] }
+def mtTy : Ty := .map .ordered .str (.map .counter .str .int)
+def mtVal : Obj := .mdict .ordered [(.str "a", .mdict .counter [(.str "x", .int 2), (.str "y", .int 0)]), (.str "b", .mdict .counter [])]
+
+theorem mtWorld_WF : mtWorld.WF := by
+  constructor
+  · intro c f hf; simp [mtWorld, World.fields] at hf
+  · intro c; simp [mtWorld, World.fields]
+theorem mtWorld_WFE : mtWorld.WFE := by
+  constructor
+  · intro e v hv; simp [mtWorld, World.members] at hv
+  · intro e; simp [mtWorld, World.members, nodupPy]
+
+example : convStructure mtWorld ⟨true, false, false, false⟩ mtTy (convUnstructure mtWorld ⟨true, false, true, false⟩ mtTy mtVal)
+    = some mtVal :=
+  C01_roundtrip mtWorld _ _ mtTy mtVal rfl rfl rfl mtWorld_WF mtWorld_WFE
+    (by intro c f hf; simp [mtWorld, World.fields] at hf)
+    (by simp [mtTy, Ty.supG, Ty.hashPrim, MK.target])
+    (by intro c f hf; simp [mtWorld, World.fields] at hf)
+    (by simp [mtTy, Ty.unionsOK])
+    (by simp [mtTy, mtVal, conf, confKV, keysOf, nodupPy, Obj.memPy, Obj.pyEq, Obj.num2?, hashableL, hashable, MK.target])
+    (by simp [mtVal, Obj.valid, Obj.validKV, keysOf, nodupPy, Obj.memPy, Obj.pyEq, Obj.num2?])
+example : convUnstructure mtWorld ⟨true, false, true, false⟩ mtTy mtVal
+    = .dict [(.str "a", .dict [(.str "x", .int 2), (.str "y", .int 0)]), (.str "b", .dict [])] := by
+  simp [convUnstructure, mtTy, mtVal, un, unKV, mkDict, dictSet, Cfg.core, Obj.pyEq, Obj.num2?]
+example : (Ty.map .defaultdict .int (.coll .list .int)).supG true = true ∧ mtTy.supG false = false := by
+  simp [mtTy, Ty.supG, Ty.hashPrim, MK.target, SK.structTo, CK.isSet]
+
 end Examples
 
 
@@ -663,7 +695,7 @@ theorem litTy_unionsOK (tup : Bool) : litTy.unionsOK rtWorldB tup = true := by
     World.members, Obj.pyEq, Obj.num2?, Obj.isLeaf]
 
 theorem litVal_conf : conf rtWorldB litTy litVal = true := by
-  simp [litTy, litVal, conf, confL, litConf, litHasEnum, Obj.isEnumM, SK.structTo, CK.isSet]
+  simp [litTy, litVal, conf, confL, litConf, litHasEnum, Obj.isEnumM, SK.structTo, CK.isSet, MK.target]
 
 example : convUnstructure rtWorldB ⟨true, false, true, false⟩ litTy litVal = .coll .list [.str "x", .int 1, .str "x"] := by
   simp [convUnstructure, litTy, litVal, un, unL, unAny, litHasEnum, Obj.isEnumM, mkColl, SK.unstructTo, enumValue,
@@ -673,7 +705,7 @@ example : convUnstructure rtWorldB ⟨true, false, true, false⟩ litTy litVal =
 example : convStructure rtWorldB ⟨false, false, true, false⟩ litTy
     (convUnstructure rtWorldB ⟨true, false, false, false⟩ litTy litVal) = some litVal :=
   C01_roundtrip rtWorldB ⟨true, false, false, false⟩ ⟨false, false, true, false⟩ litTy litVal
-    rfl rfl rfl rtWorldB_WF rtWorldB_WFE (World.supB_supG rtWorldB_supB false) (by simp [litTy, Ty.supG, SK.structTo, CK.isSet])
+    rfl rfl rfl rtWorldB_WF rtWorldB_WFE (World.supB_supG rtWorldB_supB false) (by simp [litTy, Ty.supG, SK.structTo, CK.isSet, MK.target])
     (rtWorldB_noUnion.unionsOK _) (litTy_unionsOK _) litVal_conf (by simp [litVal, Obj.valid, Obj.validL])
 
 /-- BaseConverter -> Converter -/
@@ -681,7 +713,7 @@ example : convStructure rtWorldB ⟨true, false, true, false⟩ litTy
     (convUnstructure rtWorldB ⟨false, false, false, false⟩ litTy litVal) = some litVal :=
   C01_roundtrip_interp rtWorldB ⟨false, false, false, false⟩ ⟨true, false, true, false⟩ litTy litVal
     rfl rfl rfl rtWorldB_WF rtWorldB_WFE rtWorldB_supB
-    (by simp [litTy, Ty.supB, litHasEnum, Obj.isEnumM, SK.structTo, CK.isSet])
+    (by simp [litTy, Ty.supB, litHasEnum, Obj.isEnumM, SK.structTo, CK.isSet, MK.target])
     rtWorldB_noNT.ntOK (noNT_ntOK rtWorldB_noNT _)
     (rtWorldB_noUnion.unionsOK _) (litTy_unionsOK _) litVal_conf (by simp [litVal, Obj.valid, Obj.validL])
 
